@@ -11,7 +11,7 @@ import (
 
 func init() {
 	seqChecks["c06"] = &seqCheck{run: runC06, replay: replayC06,
-		rule: "every ordered set of <=2 (quick) / <=3 (thorough) valid patterns of <=3 tokens over {a,b,$x,$y,*,>} x 8 arrangements across sub-muxes (flat, mount before/after, through the parent, route, path prefix, depth 2, rooted mux) x 4 group templates x every name of <=4 tokens over {a,b,c} + malformed names; distinct = distinct (pattern set, arrangement, group, name, reference outcome) tuples"}
+		rule: "every ordered set of <=2 (quick) / <=3 (thorough) valid patterns of <=3 tokens over {a,b,$x,$y,*,>} x 8 arrangements across sub-muxes (flat, mount before/after, through the parent, route, path prefix, depth 2, rooted mux) x 4 group templates x every name of <=4 tokens over {a,b,c} + malformed names; plus patterns with literal tokens ax / ay beside the tags $x / $y; distinct = distinct (pattern set, arrangement, group, name, reference outcome) tuples"}
 }
 
 var c06Arr = []string{"flat", "mount-before", "mount-after", "mount-parent", "route", "path", "depth2", "rooted", "rooted2"}
@@ -360,6 +360,45 @@ func runC06(c *seqCtx) {
 		}
 	}
 	c.Sample("patterns [a.$x.b] arrangement mount-parent group tagged x all names")
+	// literal tokens that look like a tag name with one more character in front (ax beside $x): patterns of
+	// <= 3 tokens over {ax, ay, $x, $y}, alone and in pairs, against names over {ax, ay, b}
+	{
+		var lp, ln []string
+		var rec func(cur []string, toks []string, max int, out *[]string, pattern bool)
+		rec = func(cur []string, toks []string, max int, out *[]string, pattern bool) {
+			if len(cur) > 0 {
+				p := strings.Join(cur, ".")
+				if !pattern {
+					*out = append(*out, p)
+				} else if v, u := ref.PatternValid(p); v && !u {
+					*out = append(*out, p)
+				}
+			}
+			if len(cur) == max {
+				return
+			}
+			for _, t := range toks {
+				rec(append(append([]string{}, cur...), t), toks, max, out, pattern)
+			}
+		}
+		rec(nil, []string{"ax", "ay", "$x", "$y"}, 3, &lp, true)
+		rec(nil, []string{"ax", "ay", "b"}, 3, &ln, false)
+		saved := names
+		names = ln
+		for _, p := range lp {
+			if !run([]string{p}) {
+				return
+			}
+		}
+		for _, p := range lp {
+			for _, q := range lp {
+				if strings.Count(p, ".") <= 1 && strings.Count(q, ".") <= 1 && !run([]string{p, q}) {
+					return
+				}
+			}
+		}
+		names = saved
+	}
 	for _, p := range pats {
 		for _, q := range pats {
 			if !run([]string{p, q}) {
